@@ -456,6 +456,13 @@ QUOTA_TEMPLATES = {
                      lambda c: 64 + 36 * c['m']),
     'str': ('str($s * $n)', lambda c: _str_size(len(c['s']) * max(c['n'], 0))),
     # integers are data too: they grow without bound
+    # operands and result all within the quota, the operand sizes together
+    # above it: the concatenation fits and is returned
+    'plus-fits': ('$f1 + $f2', lambda c: _str_size(len(c['f1']) +
+                                                   len(c['f2']))),
+    'plus-empty': ("($f3 + '').len() + ('' + $f3).len() + "
+                   "concat($f3, '').len()",
+                   lambda c: _str_size(len(c['f3']))),
     # a lazy inner collection that join() has to remember
     'join-lazy-inner': ('[5, 7].join(range($m * 40).select($), $1 = $2, '
                         '[$1, $2]).len()',
@@ -533,6 +540,10 @@ def check_quota(run, case):
     # operands of about 0.6 Q: within the quota, their concatenation is not
     c['h'] = 'x' * max(int(q * 0.6) - 49, 1)
     c['hl'] = tuple(range(max((int(q * 0.6) - 56) // 8, 1)))
+    total = max(q - 60, 2)           # len(f1) + len(f2): result = Q - 11
+    c['f1'] = 'y' * (total // 2)
+    c['f2'] = 'z' * (total - total // 2)
+    c['f3'] = 'w' * max(q - 49 - 8, 1)
     predicted = predict(c)
     ctx = _quota_ctx().create_child_context()
     for k in ('s', 'n', 'd', 'm'):
@@ -543,6 +554,8 @@ def check_quota(run, case):
     ctx['$big'] = 1 << (case.get('m', 0) * 64)
     ctx['$h'] = c['h']
     ctx['$hl'] = c['hl']
+    for k in ('f1', 'f2', 'f3'):
+        ctx['$' + k] = c[k]
     del _Q['seen'][:]
     eng = _engine(10 ** 6, q, convertInputData=False)
     run.guard(case)
@@ -607,6 +620,13 @@ def check_quota(run, case):
                         text, q, predicted, _short(out[1])),
                     exc=out[1] if out[0] == 'exc' else None,
                     input_class=name)
+        return
+    if name in ('plus-fits', 'plus-empty') and out[0] == 'exc' and \
+            isinstance(out[1], yexc.MemoryQuotaExceededException):
+        run.violate('refused-although-result-fits', case,
+                    '%s under memoryQuota=%d: every operand and the result '
+                    '(own size %d) fit, yet MemoryQuotaExceededException' % (
+                        text, q, predicted), input_class=name)
         return
     # (only where the size estimate is exact: ASCII strings and lists; the
     # estimate for non-ASCII strings over-counts the per-string header)
